@@ -90,6 +90,38 @@ func (w *World) CacheSettled() error {
 	return nil
 }
 
+// NewestWins is a monitor for runs in which hbase:meta hands out stale
+// descriptions: once a region of some age has been cached for a start key, the
+// cache never goes back to an older region at that key (regions are only ever
+// replaced by newer ones; the tables of these runs are never dropped).
+func (w *World) NewestWins() error {
+	if w.Client == nil {
+		return nil
+	}
+	st, ok := gohbase.VerifSnapshot(w.Client)
+	if !ok {
+		return nil
+	}
+	if w.idHigh == nil {
+		w.idHigh = map[string][2]string{}
+		w.idHighN = map[string]uint64{}
+	}
+	for _, r := range st.Regions {
+		if r.Table == "hbase:meta" {
+			continue
+		}
+		k := r.Table + "\x00" + r.Start
+		if prev, ok := w.idHighN[k]; ok && prev > r.ID {
+			return fmt.Errorf("C08 the cache holds region %q (id %d) at start key %q of table %q, where it held the newer region %q (id %d) before: an older region replaced a newer one", r.Name, r.ID, r.Start, r.Table, w.idHigh[k][0], prev)
+		}
+		if w.idHighN[k] < r.ID || w.idHigh[k][0] == "" {
+			w.idHighN[k] = r.ID
+			w.idHigh[k] = [2]string{r.Name, ""}
+		}
+	}
+	return nil
+}
+
 func cmpTuple(a, b gohbase.VerifRegion) int {
 	if a.Table != b.Table {
 		if a.Table < b.Table {
